@@ -78,6 +78,12 @@ ModelDirective(el) ==
               (CASE ty.k = "absent" -> vd("vModelText")
                  [] ty.k = "str" -> IF ty.syms = <<"w_checkbox">> THEN vd("vModelCheckbox")
                                     ELSE IF ty.syms = <<"w_radio">> THEN vd("vModelRadio") ELSE vd("vModelText")
+                 \* a string literal written in braces is still a statically known type: the specific directive
+                 \* and vModelDynamic (which dispatches on el.type at run time) both bind it correctly
+                 [] ty.k = "expr" /\ ty.e.k = "lit" /\ ty.e.v.t = "str" ->
+                      OneOf(<<vd("vModelDynamic"),
+                              IF ty.e.v.cp = <<99, 104, 101, 99, 107, 98, 111, 120>> THEN vd("vModelCheckbox")
+                              ELSE IF ty.e.v.cp = <<114, 97, 100, 105, 111>> THEN vd("vModelRadio") ELSE vd("vModelText")>>)
                  [] OTHER -> vd("vModelDynamic"))
          [] OTHER -> AnyV
 
